@@ -158,6 +158,9 @@ pub enum Op {
     AutoDrop { slot: u8 },
     /// cancel through a clone of the key, keep the original in the slot
     CloneCancel { slot: u8 },
+    /// cancel, from inside a handler, through a clone of a key the *driver* obtained from
+    /// `Scheduler::schedule_keyed_*` / an `EventSource` and keeps in its slot `slot`
+    CancelDriver { slot: u8 },
     /// log `cx.time()`
     ReadTime,
     /// panic with a payload kind (0: &'static str, 1: String, 2: custom struct)
@@ -176,7 +179,8 @@ pub enum Op {
         events: u8,
         pending: u8,
         /// 1: the first event makes an inner model panic (the inner run call returns
-        /// `Err(Panic)` to this handler, which carries on)
+        /// `Err(Panic)` to this handler, which carries on); 2: the inner run ends with
+        /// MessageLoss (a message left in a mailbox that is not part of the inner simulation)
         #[serde(default)]
         inner_fault: u8,
     },
@@ -368,6 +372,8 @@ pub struct Shared {
     /// worker threads (other than the driver's) that ran a handler / that have exited since (C19)
     pub threads_seen: AtomicUsize,
     pub threads_exited: Arc<AtomicUsize>,
+    /// the keys the driver holds in its slots (class S), visible to the models (`Op::CancelDriver`)
+    pub dkeys: Mutex<Vec<Option<ActionKey>>>,
 }
 
 thread_local! {
@@ -583,6 +589,21 @@ impl Node {
                 }
                 Op::CloneCancel { slot } => {
                     let k = self.slots.get(*slot as usize).and_then(|s| s.clone());
+                    let had = k.is_some();
+                    if let Some(k) = k {
+                        k.cancel();
+                    }
+                    OpRes::Cancel(had)
+                }
+                Op::CancelDriver { slot } => {
+                    let k = {
+                        let g = self.shared.dkeys.lock().unwrap();
+                        if g.is_empty() {
+                            None
+                        } else {
+                            g[*slot as usize % g.len()].clone()
+                        }
+                    };
                     let had = k.is_some();
                     if let Some(k) = k {
                         k.cancel();
@@ -1060,6 +1081,7 @@ pub fn build(bench: &Bench, exec: &Exec, opts: &BuildOpts, start: i64) -> Built 
         qualified,
         threads_seen: AtomicUsize::new(0),
         threads_exited: Arc::new(AtomicUsize::new(0)),
+        dkeys: Mutex::new(Vec::new()),
     });
 
     let mailboxes: Vec<Mailbox<Node>> = bench
@@ -1464,6 +1486,12 @@ pub fn nested_sim(shared: &Arc<Shared>, threads: u8, models: u8, events: u8, pen
     for i in 0..n - 1 {
         ms[i].out.connect(Inner::on, &boxes[i + 1]);
     }
+    // inner_fault 2: the last inner model forwards to a mailbox that is never added to the
+    // inner simulation: the inner run ends with MessageLoss (returned to this handler as Err)
+    let stray: Mailbox<Inner> = Mailbox::with_capacity(2);
+    if inner_fault == 2 {
+        ms[n - 1].out.connect(Inner::on, &stray);
+    }
     let first = boxes[0].address();
     let mut init = SimInit::with_num_threads(threads.clamp(1, 2) as usize);
     for (i, (m, b)) in ms.into_iter().zip(boxes.into_iter()).enumerate() {
@@ -1507,6 +1535,7 @@ pub fn nested_sim(shared: &Arc<Shared>, threads: u8, models: u8, events: u8, pen
     }
     drop(sim);
     drop(sched);
+    drop(stray);
 }
 
 // ---------------------------------------------------------------------------
